@@ -111,13 +111,5 @@ fn url_4() { check_url::<4>() }
 #[kani::unwind(23)]
 fn email_4() { check_email::<4>() }
 
-fn check_number<const N: usize>() {
-    let (a, len) = any_text::<N>();
-    let src = &a[..len];
-    let r = lex_number(src);
-    assert!(found_ok(len, &r));
-    kani::cover!(r.is_some());
-}
-#[kani::proof]
-#[kani::unwind(6)]
-fn number_2() { check_number::<2>() }
+// (a harness for lex_number - str::parse::<f64> on symbolic text - does not finish: CBMC timed out after 20 min at
+// length 2; lex_number's found_ok contract stays ASSUMED, see DESIGN 6.4)
